@@ -1,6 +1,7 @@
 """C08 -- truncated or mis-tagged input is rejected with an exception (fault enumeration over damaged streams)."""
+import os
 from gen import zoo
-from vlib import zoorun
+from vlib import core, zoorun
 
 LEVEL = "fault_enumeration"
 SIZE = {"float": 4, "double": 8}
@@ -70,7 +71,13 @@ def run(ctx):
     vg = chosen[:30] if ctx.thorough else chosen[:8]
     sh3 = zoorun.make_shards(ctx, vg, "zio::drive_c08<{Z}>();", "faults", flavour="vg-O0", extra_include="zoo_io.hpp", per_shard=1,
                              primary=False, defines=["VH_VALGRIND"])
-    runs = ctx.run_shards(sh + sh2 + sh3, timeout=7200)
+    # (5) dimension mismatch: same layer kinds, another number of dimensions (hand-written ladder, harness/c08_dims.cpp)
+    dims = os.path.join(core.HARNESS, "c08_dims.cpp")
+    sh4 = []
+    for o, oname in enumerate(["strided", "morton-bmi2", "morton-portable", "hilbert"]):
+        sh4.append(dict(name="dimension-mismatch/%s/asan-dbg" % oname, src=dims, flavour="asan-dbg+bmi2" if o == 1 else "asan-dbg", defines=["SH_O=%d" % o]))
+        sh4.append(dict(name="dimension-mismatch/%s/asan-rel" % oname, src=dims, flavour="asan-rel", defines=["SH_O=%d" % o], primary=False))
+    runs = ctx.run_shards(sh + sh2 + sh3 + sh4, timeout=7200)
     ctx.stats["damaged_loads_under_memcheck"] = sum(r.ev for r in runs if r is not None and r.flavour.startswith("vg"))
     ctx.stats["damaged_loads_under_asan_ndebug"] = sum(r.ev for r in runs if r is not None and r.flavour.startswith("asan-rel"))
     return ctx.finish(
@@ -80,7 +87,10 @@ def run(ctx):
               "single-bit flips, 0, +-0x20000000 (header<->footer form), the other magic, real layer tags incl. the CUDA array's, another layer's tag "
               "from the same dump, all bits inverted, random}; width words by {all 32 single-bit flips, 0,1,2,3,5,6,7,9,16, byte-swapped 4/8, the other valid width, random}; (3) a stream buffer that fails (EOF-style "
               "and by throwing from underflow/xsgetn) from the n-th read call for every n (strided when a load needs > 400 calls), and a stream "
-              "that has failed before loading; (4) %d ordered pairs of stacks whose on-disk signatures differ, including every chosen stack against its sibling over another storage order (identical payload layout, only the tag differs).  Accepted outcome: an exception "
+              "that has failed before loading; (4) %d ordered pairs of stacks whose on-disk signatures differ, including every chosen stack against its sibling over another storage order (identical payload layout, only the tag differs); (5) dimension mismatch: dumps of {bare, clamp<>, backup<>, nearest_neighbour<>, affine<linear<>>} over "
+              "{strided, morton<true>, morton<false>, hilbert} with N dimensions offered to the same stack with N+-1 / N+-2 dimensions (outer tags agree, only "
+              "the amount of configuration differs), random extents; (1) and (3) are repeated on streams whose exception mask is set "
+              "(failbit|badbit, badbit|eofbit, all three).  A loader that does not return is reported by the watchdog (hang).  Accepted outcome: an exception "
               "derived from std::exception leaves field(std::istream&).  Monitors: outcome classification in ASan+UBSan builds with assertions on "
               "and off; valgrind memcheck (-O0 build, error-count delta per load) for decisions on uninitialised bytes.  non-trivial/distinct: "
               "hash of (dump, fault kind, position/value)") % (len(chosen), npairs),
